@@ -13,7 +13,7 @@
     delete id=b priv=k1s                 get id=b priv=k1s
     reload                               save            load into=new|cur
     dump
-    tamper kind=flipblob|emptyblob|drop|alg id=b         tamper kind=fliptag
+    tamper kind=flipblob|emptyblob|drop|alg id=b         tamper kind=fliptag|striptag|trunctag n=k
     tamper kind=addslot id=c blob=empty|junk|copy:b|enc:k3p:m1
     tamper kind=rename from=b to=c order=same|changed    tamper kind=version v=0|2
 
@@ -151,6 +151,8 @@ def parseTamper (s : State) (a : List (String × String)) (nonce : Nat) : Option
     | some sl => if sl.blob ≠ [] then some (.alterBlob id []) else none
     | none => none
   | "fliptag" => if s.tag ≠ [] then some (.alterTag (flipHead s.tag)) else none
+  | "striptag" => if s.tag ≠ [] then some (.alterTag []) else none
+  | "trunctag" => if s.tag ≠ [] ∧ argNat a "n" < s.tag.length then some (.alterTag (s.tag.take (argNat a "n"))) else none
   | "drop" => if (alLookup id s.slots).isSome then some (.removeSlot id) else none
   | "addslot" =>
     if id ≠ "" ∧ (alLookup id s.slots).isNone then
